@@ -143,6 +143,15 @@ CHECKS = {
     note=TRUSTED + 'vk/ref/refsm.py and vk/ref/refvlq.py (self-tested on specification examples by setup_cmd and at every start); '
          'fragments written before any fragment named a source are checked for line/column only.',
     design='DESIGN.md section 3, C09'),
+ 'C19': dict(
+    technique='postcondition contract on the real ast_to_dict with json.loads as reference model; hit counters on LiteralEval / GroupAsMap / GroupAsList',
+    level='exploration',
+    text='Seeded random JSON documents (depth<=6, odd and duplicate keys, every JSON escape, raw non-ASCII and non-BMP text, every JSON number '
+         'spelling incl. -0, 1e400, 5e-324, 30-digit integers, random JSON white space) are bound by var, by assignment and inside a function; '
+         'the dictionary returned by the real ast_to_dict (fold_ops off and on) must hold exactly the value json.loads gives (type-aware: '
+         '1 vs 1.0, True vs 1, sign of zero) under the bound name and nothing else.',
+    note=TRUSTED + 'json.loads as the reference; only spellings valid in both JSON and ES5.',
+    design='DESIGN.md section 3, C19'),
 }
 
 PENDING = 'monitor planned in DESIGN.md section 3 but not built yet in this round; no claim is made'
